@@ -41,7 +41,10 @@ class Symbolic(SymSymbol):  # type: ignore[misc]  # pylint: disable=too-many-anc
         inner = str(expr)
         display_name = f"{cls_name}({inner})"
 
-        obj = super().__new__(cls, display_name, **assumptions)
+        # NOTE: `Symbol.__new__` hands out one cached object per (class, name, assumptions). The name
+        # is made of the *display* names of the argument, which are not unique, so the uncached
+        # constructor is used here and the argument itself takes part in equality (see below).
+        obj = SymSymbol.__xnew__(cls, display_name, **assumptions)
         return obj  # type: ignore[no-any-return]
 
     def __init__(
@@ -55,6 +58,10 @@ class Symbolic(SymSymbol):  # type: ignore[misc]  # pylint: disable=too-many-anc
         self.dimension = collect_expression_and_dimension(expr)[1]
         self.wrap_code = wrap_code
         self.wrap_latex = wrap_latex
+
+    def _hashable_content(self) -> tuple[Any, ...]:
+        # Wrappers of different arguments are different symbols even if the arguments print alike.
+        return (*super()._hashable_content(), self.factor)
 
 
 class Average(Symbolic):  # pylint: disable=too-many-ancestors
